@@ -9,7 +9,7 @@ LEVEL = 'exploration'
 ENGINE = 'E1'
 TIMEOUT_IS_VIOLATION = True
 TECHNIQUE = 'bounded exhaustive enumeration (full product launch angle x muzzle speed x station altitude x limit configuration x range x mode), each execution under a wall-clock watchdog and compared with the same request on a calculator with relaxed limits'
-RULE = ('cells = launch {0,45,80,90,-45,-90 deg} x mv {2750,60,0 fps} x station altitude {0,5000,-1000 ft} x limit configuration '
+RULE = ('cells = launch {0,45,80,90,-45,-90 deg} x mv {2750,60,0 fps} (+ slow launches 200/60 fps x tail/head/cross wind) x station altitude {0,5000,-1000 ft} x limit configuration '
         '{defaults; each single limit loose/tight/violated at the muzzle; all 8 on/off combinations of tightened limits} x range {100 yd, 3000 yd} '
         'x {plain, extra} (time step 0.5 s for near-vertical and very slow launches so that rows exist before the limit); non-trivial = the call ended in a RangeError with at least 3 rows (so prefix and precedence clauses are exercised); '
         'outcomes = distinct (result kind, reason) classes')
@@ -45,12 +45,13 @@ def status(value, limit):
 def fire(cell):
     import py_ballisticcalc as pb
     U = pb.Unit
-    ang, mv, alt, cfg, rng_yd, extra, tstep = cell
+    ang, mv, alt, cfg, rng_yd, extra, tstep = cell[:7]
+    wind = cell[7] if len(cell) > 7 else None
     dm = pb.DragModel(0.223, pb.TableG7, U.Grain(168), U.Inch(0.308), U.Inch(1.282))
 
     def shot():
         return pb.Shot(pb.Weapon(U.Inch(2), U.Inch(12)), pb.Ammo(dm, U.FPS(mv)), relative_angle=U.Degree(ang),
-                       atmo=pb.Atmo.icao(U.Foot(alt)))
+                       atmo=pb.Atmo.icao(U.Foot(alt)), winds=[pb.Wind(U.MPH(wind[0]), U.Degree(wind[1]))] if wind else None)
 
     full = dict(DEFAULTS)
     full.update(cfg)
@@ -137,4 +138,11 @@ def plan(tier):
                             cells.append([ang, mv, alt, cfg, rng, extra, 0.5 if abs(ang) >= 80 or mv < 100 else 0.0])
                             if tier == 'thorough' and (abs(ang) >= 80 or mv < 100):
                                 cells.append([ang, mv, alt, cfg, rng, extra, 0.0])
+    # wind makes ground speed and air speed differ: the velocity limit is about the (ground) speed the rows report
+    for ang in (0.0, 45.0, 70.0, -45.0):
+        for mv in (200.0, 60.0):
+            for wind in ([10, 0], [20, 0], [20, 180], [15, 90]):
+                for cfg in ({}, {'cMinimumVelocity': 100.0}, {'cMinimumVelocity': 0.0, 'cMaximumDrop': -100.0}):
+                    for extra in (False, True):
+                        cells.append([ang, mv, 0.0, cfg, 3000, extra, 0.5, wind])
     return [('fire', cells)]
